@@ -110,6 +110,7 @@ fn summarise_mt(prop: &str, spec: &MtSpec, out: &MtOut) -> RunSummary {
     faults.insert("confirmation_phase".to_string(), out.confirms);
     faults.insert("teardown_in_simulation".to_string(), out.teardowns);
     faults.insert("aba_cas_success".to_string(), if out.aba.is_empty() { 0 } else { 1 });
+    faults.insert("removal_mark_wiped_by_store".to_string(), if out.mark_wiped.is_empty() { 0 } else { 1 });
     faults.insert(format!("strategy_{}", spec.strategy.name()), 1);
     let mut probes = BTreeMap::new();
     for (k, v) in &out.probes {
